@@ -109,7 +109,13 @@ def witness_F8():
     with warnings.catch_warnings():
         warnings.simplefilter('ignore')
         exact = np.max(np.abs(kp.predict_trajectory(X)[:, 1:] - X[:, 1:])) < 1e-12
-        return bool(exact and abs(kp.score(X)) > 1e-6)
+        # the witness of the theorem C08_scorer_alignment_refuted (x+ = 2 x, data 1 2 4 8, Koopman matrix [[2]]): the model
+        # reproduces the data and the scorer returns -10, as the scorer generated from the source does inside Coq
+        Xw = np.array([[1.0], [2.0], [4.0], [8.0]])
+        kw = pykoop.KoopmanPipeline(regressor=pykoop.DataRegressor(coef=np.array([[2.0]])))
+        kw.fit(Xw, n_inputs=0, episode_feature=False)
+        coq = bool(np.array_equal(kw.predict_trajectory(Xw), Xw) and abs(kw.score(Xw) + 10.0) < 1e-9)
+        return bool(exact and abs(kp.score(X)) > 1e-6 and coq)
 
 
 def witness_F3():
